@@ -35,6 +35,17 @@ def renamer(pairs):
     return f
 
 
+COMMUTATIVE = {"&&", "||", "==", "!=", "+", "*", "&", "|", "^"}
+
+
+def _pure(n):
+    for y in walk(n):
+        if y["k"] in ("CallExpr", "CompoundAssignOperator") or (y["k"] == "BinaryOperator" and y.get("op") == "=") or \
+                (y["k"] == "UnaryOperator" and y.get("op") in ("++", "--", "post++", "post--", "pre++", "pre--")):
+            return False
+    return True
+
+
 def serialise(n, ren, out, types=True, local_ids=None):
     """Pre-order token list of a statement/expression tree."""
     if n is None:
@@ -76,6 +87,15 @@ def serialise(n, ren, out, types=True, local_ids=None):
         tok.append(ren(n.get("lon")) if n.get("lon") else n.get("lo"))
     mac = n.get("mac")
     out.append((" ".join(str(x) for x in tok), line))
+    if k == "BinaryOperator" and n.get("op") in COMMUTATIVE and _pure(n["c"][0]) and _pure(n["c"][1]):
+        # operand order of a commutative operator over side-effect-free operands is not a difference
+        a, b = [], []
+        serialise(n["c"][0], ren, a, types, local_ids)
+        serialise(n["c"][1], ren, b, types, local_ids)
+        first, second = sorted([a, b], key=lambda t: [x[0] for x in t])
+        out.extend(first)
+        out.extend(second)
+        return
     if k == "CallExpr":
         kids = n["c"][1:]          # the callee reference is in the token already
     else:
@@ -109,3 +129,12 @@ def compare(fa, fb, pairs, types=True):
         if ta[0] != tb[0]:
             return (i, ta[0], ta[1], tb[0], tb[1], len(A), len(B))
     return None
+
+
+def kind_of_difference(r):
+    """'value' when the two serialisations have the same shape and differ in an operator, constant, callee, member or type at
+    the reported token; 'shape' when statements or sub-terms were added, removed or restructured."""
+    i, ta, la, tb, lb, na, nb = r
+    if na == nb and ta.split(" ")[0] == tb.split(" ")[0]:
+        return "value"
+    return "shape"
